@@ -380,11 +380,12 @@ pub fn run(run: &mut Run) {
         {
             run.acc.violation("c03:meta", format!("delay/cycle/repeat accessors ({}, {:?}, {:?}) differ from configured {:?}", tl.delay(), tl.cycle_duration(), tl.repeat(), cfg), case("accessors"));
         }
-        // three roundings (count, product, sum) => at most 1.5 ulp from the real total
+        // three roundings (count to f32 — up to one ulp of the product once the count exceeds 2^24 —, product,
+        // sum) => at most 2 ulp from the real total
         let dur_ok = if want_total.is_infinite() {
             dur == f32::INFINITY
         } else {
-            dur.is_finite() && (dur as f64 - want_total).abs() <= 1.5 * ulp32(want_total as f32) as f64 + 1e-30
+            dur.is_finite() && (dur as f64 - want_total).abs() <= 2.0 * ulp32(want_total as f32) as f64 + 1e-30
         };
         if !dur_ok {
             run.acc.violation("c03:duration", format!("duration() = {dur} but delay + cycle x (repeats+1) = {want_total} for {:?}", cfg), case("duration"));
